@@ -63,14 +63,19 @@ func NewWithOptions(opts *Options) *MemFS {
 
 	var volumeName string
 
+	curDir := "/"
+
 	if vfs.OSType() == avfs.OsWindows {
 		vfs.dirMode |= avfs.DefaultDirPerm
 		vfs.fileMode |= avfs.DefaultFilePerm
 
 		volumeName = avfs.DefaultVolume
+		curDir = volumeName + string(vfs.PathSeparator())
 		vfs.volumes = make(volumes)
 		vfs.volumes[volumeName] = vfs.rootNode
 	}
+
+	_ = vfs.SetCurDir(curDir)
 
 	if len(opts.SystemDirs) == 0 {
 		opts.SystemDirs = avfs.SystemDirs(vfs, volumeName)
